@@ -195,7 +195,8 @@ def run_gate(gen_main, plugin_modules, spy, doc_path, plugin, out_dir, test_dir)
     spy.calls.clear()
     failed = False
     try:
-        gen_main(["--model", doc_path, "--plugin", plugin, "--output-dir", out_dir, "--test-dir", test_dir])
+        paths = list(doc_path) if isinstance(doc_path, (list, tuple)) else [doc_path]
+        gen_main(["--model"] + paths + ["--plugin", plugin, "--output-dir", out_dir, "--test-dir", test_dir])
     except SystemExit as e:
         failed = e.code not in (0, None)
     except BaseException:  # noqa: BLE001
@@ -277,6 +278,25 @@ def _gate_worker(args):
                                        "schema-violating model (%s at %s: %s) reaches plugin %s (command failed=%s, plugin called=%s, wrote=%s)" % (
                                            name, "/".join(map(str, path)), desc, p, failed, called, wrote),
                                        {"definition": name, "rule": rule, "path": [str(x) for x in path], "edit": desc, "plugin": p}))
+            # the violating document at every position of a model *list* (first, last, middle) next to valid files
+            okx = os.path.join(work, "ok_ext.json")
+            if not os.path.exists(okx):
+                docs.write({"metaData": dict(base["metaData"]), "requests": [], "notifications": [], "structures": [
+                    {"name": "VerifGateExt", "properties": [{"name": "value", "type": {"kind": "base", "name": "string"}}]}],
+                    "enumerations": [], "typeAliases": []}, okx)
+                docs.write(base, os.path.join(work, "ok_base.json"))
+            okb = os.path.join(work, "ok_base.json")
+            for pos, lst in (("first", [bp, okx]), ("last", [okb, bp]), ("middle", [okb, bp, okx])):
+                o, t = os.path.join(work, "o"), os.path.join(work, "t")
+                os.makedirs(o), os.makedirs(t)
+                failed, called, wrote = run_gate(gmain.main, None, spy, lst, "lspverif_spy_plugin", o, t)
+                rm(o), rm(t)
+                out["runs"] += 1
+                if called or not failed or wrote:
+                    out["bad"].append(("gate-open", key,
+                                       "schema-violating model file (%s at %s: %s) as the %s file of a model list reaches the plugin (command failed=%s, plugin called=%s, wrote=%s)" % (
+                                           name, "/".join(map(str, path)), desc, pos, failed, called, wrote),
+                                       {"definition": name, "rule": rule, "path": [str(x) for x in path], "edit": desc, "plugin": "spy", "position": pos}))
     finally:
         rm(work)
     return out
@@ -486,7 +506,7 @@ def run(ctx):
                 "edit at every JSON node: equal loads equal, edited loads unequal, no comparison raises; (d) every schema definition x rule kind x "
                 "site class (first/middle/last instance) single edit rejected by the rooted schema x 5 plugins (4 real with recording wrappers + spy "
                 "module): command must fail, no plugin called, nothing written - the violating document is written to a path that held a valid "
-                "model in the previous run of the same process; whole-model equality under edits at the end of each section; repeated loads of the "
+                "model in the previous run of the same process, and is also given as the first / last / middle file of a model list next to valid files; whole-model equality under edits at the end of each section; repeated loads of the "
                 "same parsed documents (not altered, equal models)",
         **stats, "exhaustive": True, "samples": samples,
     }
